@@ -995,10 +995,11 @@ func (ctx Ctx) basicLiteral(e *ast.BasicLit) coq.Expr {
 }
 
 // nilIsNull reports whether nil of type t is the null location: pointers
-// (also of a named pointer type) and maps, which are references to a map value
+// (also of a named pointer type), maps, which are references to a map value,
+// and functions, whose zero value is null
 func nilIsNull(t types.Type) bool {
 	switch t.Underlying().(type) {
-	case *types.Pointer, *types.Map:
+	case *types.Pointer, *types.Map, *types.Signature:
 		return true
 	}
 	return false
